@@ -13,6 +13,9 @@ Structural clauses decided:
  R8 header lines / cookie pairs are divided at their first separator only
  R9 the header order records the value as parsed (no value dependent dropping)
  R10 the header-count cap is inclusive (exactly max_headers headers are accepted)
+ R11 nothing on the HTTP/1 path validates the whole input (head and body) with a strict UTF-8 conversion
+ R12 header names / values are trimmed with trim() (spaces and tabs)
+ R2  (also) each header yields exactly one header-order entry (the pushes of the per-header loop are mutually exclusive)
 """
 from ..engine import q as Q
 from ..engine import tables as TB
